@@ -166,3 +166,12 @@ def run_case(case, ctx):
     s = ctx.call("spike_sync", pyspike.spike_sync, st1, st2, **kw)
     ctx.check(ps.close(s, sref, 1e-12), "sync_value",
               lambda: "spike_sync=%r expected %r" % (float(s), float(sref)))
+
+
+def siblings(case):
+    """run right after the case in the same process (runner._run_one)"""
+    sibs = [ps.sibling_wider_edges(case)]
+    extra = ps.sibling_same_count_and_sum(case)
+    if extra is not None:
+        sibs.append(extra)
+    return sibs
